@@ -21,6 +21,7 @@ import operator
 from datetime import date, datetime
 
 from .core import Agg, V
+import itertools
 from .models import obs, canon_elem, is_table
 
 D0, D1, D2 = date(2020, 1, 1), date(2021, 2, 3), date(2022, 3, 4)
@@ -530,6 +531,103 @@ def unit_nested_copies(unit):
                     agg.violation(V("deepcopy.nested", "write-seen-through-the-other-object", case, _brief(before), _brief(observe(dst))))
                 else:
                     agg.outcomes["result-write-stays-local"] += 1
+    return agg
+
+
+def unit_odd_names(unit):
+    """operands whose NAMES are not strings (years as ints, a tuple, a float, None) or are strings that need sanitising: the
+    read-only operations that do not address columns by name - repr, str, dir, fingerprint, len, iteration, row access, copy,
+    transposition, slicing, arithmetic with a scalar, comparison, sorting by a column object, column_names() - leave contents,
+    dtypes and the names themselves (type-exact) as they were"""
+    import warnings
+    from serif import Vector, Table
+    agg = Agg()
+    namesets = [[2023, 2024, "total"], [("q", 1), None, "x"], [2.5, True, ""], ["A b", "a_b", "A b"], [None, None, None], [b"k", 0, -1]]
+    ops = [("repr", lambda t: repr(t)), ("str", lambda t: str(t)), ("dir", lambda t: dir(t)), ("fingerprint", lambda t: t.fingerprint()), ("len", lambda t: len(t)),
+           ("iterate", lambda t: [tuple(r) for r in t]), ("row", lambda t: t[0]), ("copy", lambda t: t.copy()), ("T", lambda t: t.T), ("slice", lambda t: t[0:1]),
+           ("add-scalar", lambda t: t + 1), ("scalar-add", lambda t: 1 + t), ("compare", lambda t: t == t.copy()), ("sort_by-column", lambda t: t.sort_by(t.cols()[0])),
+           ("column_names", lambda t: t.column_names()), ("cols", lambda t: t.cols()), ("repr-of-column", lambda t: repr(t.cols()[0])), ("repr-twice", lambda t: (repr(t), repr(t))),
+           ("schema", lambda t: [c.schema() for c in t.cols()]), ("shape", lambda t: t.shape), ("aggregate-by-column", lambda t: t.aggregate(over=t.cols()[0], sum_over=t.cols()[1])),
+           ("join-by-column", lambda t: t.inner_join(t.copy(), t.cols()[0], t.cols()[0], expect="many_to_many"))]
+
+    def image(t, handle):
+        return ([(type(c._name).__name__, repr(c._name), tuple(map(canon_elem, c._underlying)), repr(c._dtype)) for c in t._underlying],
+                (type(handle._name).__name__, repr(handle._name), tuple(map(canon_elem, handle._underlying))))
+    for names in namesets:
+        for opname, op in ops:
+            for what in ("table", "vector"):
+                with warnings.catch_warnings():
+                    warnings.simplefilter("ignore")
+                    try:
+                        t = Table([Vector([1 + i, 2 + i, 3 + i], name=nm) for i, nm in enumerate(names)])
+                        handle = t.cols()[0]
+                        target = t if what == "table" else Vector([7, 8, 9], name=names[0])
+                        before = image(t, handle)
+                        vbefore = (type(target._name).__name__, repr(target._name)) if what == "vector" else None
+                    except Exception:
+                        agg.skipped["scenario-not-buildable"] += 1
+                        continue
+                    agg.evals += 1; agg.states += 1; agg.transitions += 1; agg.compared += 1; agg.nontrivial += 1
+                    case = {"names": [repr(n_) for n_ in names], "operation": opname, "on": what, "derivation": None, "odd_names": True}
+                    try:
+                        if what == "table":
+                            op(t)
+                        elif opname in ("repr", "str", "dir", "fingerprint", "len", "copy", "slice", "add-scalar", "scalar-add", "repr-twice"):
+                            op(target)
+                        else:
+                            continue
+                    except Exception:
+                        agg.outcomes["pure-raises"] += 1
+                    after = image(t, handle)
+                    if after != before:
+                        agg.violation(V("purity.odd-names." + opname, "read-only-operation-changed-its-operand" + ("-name" if [x[2:] for x in after[0]] == [x[2:] for x in before[0]] else ""), case, before[0], after[0]))
+                    elif what == "vector" and (type(target._name).__name__, repr(target._name)) != vbefore:
+                        agg.violation(V("purity.odd-names." + opname, "read-only-operation-changed-its-operand-name", case, vbefore, repr(target._name)))
+                    else:
+                        agg.outcomes["pure-op"] += 1
+    return agg
+
+
+def unit_join_key_kinds(unit):
+    """joins whose two key columns are of DIFFERENT kinds (date with datetime, int with float, bool with int, int with str ...),
+    keys given by name, by column and by a free vector: whether such a join is performed or refused, both tables, their key
+    columns and the caller's free key vectors keep contents and dtypes"""
+    import warnings
+    from datetime import date, datetime
+    from serif import Vector, Table
+    agg = Agg()
+    kinds = {"bool": [True, False, True], "int": [1, 2, 1], "float": [1.0, 2.5, 1.0], "complex": [1j, 2j, 1j], "str": ["a", "b", "a"],
+             "date": [date(2020, 1, 1), date(2020, 1, 2), date(2020, 1, 1)], "datetime": [datetime(2020, 1, 1), datetime(2020, 1, 2, 5), datetime(2020, 1, 1)],
+             "int?": [1, None, 1], "date?": [date(2020, 1, 1), None, date(2020, 1, 2)]}
+    for lk, rk in itertools.product(kinds, repeat=2):
+        if lk == rk:
+            continue
+        for method in ("inner_join", "join", "full_join"):
+            for form in ("name", "column", "free-vector"):
+                with warnings.catch_warnings():
+                    warnings.simplefilter("ignore")
+                    L = Table([Vector(list(kinds[lk]), name="k"), Vector([10, 20, 30], name="lp")])
+                    R = Table([Vector(list(kinds[rk]), name="j"), Vector([7, 8, 9], name="rp")])
+                    lfree, rfree = Vector(list(kinds[lk]), name="k"), Vector(list(kinds[rk]), name="j")
+                    hl, hr = L["k"], R["j"]
+                    before = [obs(L), obs(R), obs(lfree), obs(rfree), obs(hl), obs(hr)]
+                    agg.evals += 1; agg.states += 1; agg.transitions += 1; agg.compared += 6; agg.nontrivial += 1
+                    case = {"left_key_kind": lk, "right_key_kind": rk, "method": method, "keys_given_as": form, "derivation": None, "join_key_kinds": True}
+                    try:
+                        if form == "name":
+                            getattr(L, method)(R, "k", "j", expect="many_to_many")
+                        elif form == "column":
+                            getattr(L, method)(R, L["k"], R["j"], expect="many_to_many")
+                        else:
+                            getattr(L, method)(R, lfree, rfree, expect="many_to_many")
+                        agg.outcomes["pure-op"] += 1
+                    except Exception:
+                        agg.outcomes["pure-raises"] += 1
+                    after = [obs(L), obs(R), obs(lfree), obs(rfree), obs(hl), obs(hr)]
+                    if after != before:
+                        i = [a != b for a, b in zip(after, before)].index(True)
+                        agg.violation(V("purity.join-key-kinds." + method, "read-only-operation-changed-its-operand", dict(case, changed=["left table", "right table", "left key vector", "right key vector", "left column handle", "right column handle"][i]),
+                                        _brief(before[i]), _brief(after[i])))
     return agg
 
 
